@@ -74,6 +74,14 @@ Theorem live_instances_counted : forall (nv : nat) (ops : list op) (st : state),
 Proof. exact live_count_proof. Qed.
 Print Assumptions live_instances_counted.
 
+(* ... split into what the property text accounts for - one instance per stored element and per
+   stored key, `sstored`, the number the spec oracle prints - and what the containers keep for
+   themselves (`sbase`: the instances of the embedded end items, an implementation fact). *)
+Theorem stored_instances_counted : forall (nv : nat) (ops : list op) (st : state),
+  run (init nv) ops = Ok st -> length (heap (sw st)) = sbase (abs st) + sstored (abs st).
+Proof. exact stored_count_proof. Qed.
+Print Assumptions stored_instances_counted.
+
 (* Every operation in every reachable state succeeds and does to the contents what the spec
    says (in particular x = x, x.append(x), a.append(a[i]) are the spec's value semantics). *)
 Theorem step_refines_spec : forall (nv : nat) (ops : list op) (st : state) (o : op),
